@@ -26,7 +26,7 @@ for i in all_ids:
         na[i] = 'not claimed yet: its units are planned in DESIGN.md §5/§9 but not built and validated at this commit'
 m = {
     'version': 1,
-    'setup_cmd': 'python3 -c "import json,re,subprocess" && verus --version >/dev/null && cargo kani --version >/dev/null',
+    'setup_cmd': 'python3 -c "import json,re,subprocess" && verus --version >/dev/null && cargo kani --version >/dev/null && cargo +1.98.1-x86_64-unknown-linux-gnu --version >/dev/null',
     'hooks': {
         'guard': 'cfg(kani)',
         'enable': 'no hook is committed to /repo: contracts (#[cfg_attr(kani, kani::ensures(..))]) and harness modules (#[cfg(kani)] mod ..) are injected by lib/krun.py into a scratch copy of abasic-core made from the working tree on every run; Verus units are regenerated from the working tree by lib/vgen.py',
